@@ -8,6 +8,9 @@ CLAIMED = {
  "C20": ("Coq theorems on the real-number instance of Model/Poisson.v: closed-form branch exact, series branch within 1e-17 of (1-exp(-x))/x (MVT + interval), value 1 at 0, range (0,1], strictly decreasing on x>=0 across the switch, complex closed-form identity, imaginary-axis values, conjugation symmetry; the same Gallina term runs in binary64 and is compared with poisson_prob_scale on ~4k real/complex scalars and mixed arrays at 2e-15. Partial: series truncation error for general complex |z|<1e-3 not mechanised.",
          "trusts: Coq kernel/vm_compute; real-number axioms + classic (interval/Coquelicot) as printed; FloatFun.v (measured <=1 ulp); correspondence tolerance 2e-15; numpy expm1",
          "Coq proof (Coquelicot MVT + interval) on hand-written model + float correspondence", "DESIGN.md §3 C20"),
+ "C18": ("Coq theorems for every n and every a<b: midpoint and trapezoid (weights sum to b-a, positive, nodes strictly increasing inside [a,b], exact for degree 0 and 1), Simpson (n=2m+1: weights positive, sum b-a, exact through degree 3 by telescoping panel sums), Gauss-Legendre affine map (transfers exactness as a Riemann-integral identity via Coquelicot RInt_comp_lin; weight sum/positivity/order preserved). Same model runs in binary64 against integration.quadrature for all five rules (Clenshaw-Curtis through a direct inverse DFT). Partial: Waldvogel FFT identity for Clenshaw-Curtis and numpy leggauss are oracles validated numerically by exact moments; spawn-stack tensor product checked against the implementation (theorem in C10).",
+         "trusts: Coq kernel/vm_compute; real-number axioms (+classic via Coquelicot); FloatFun.v; tolerance 2^-43*scale; leggauss / FFT identity as oracles",
+         "Coq proof (induction over n, closed sums, Coquelicot RInt) on hand-written model + float correspondence", "DESIGN.md §3 C18"),
 }
 NOT_YET = "check not built yet in this commit (work in progress; see DESIGN.md §3 for the planned proof)"
 
